@@ -132,43 +132,62 @@ def run(ctx):
                      f"`{norm_stmt(st)}` can overwrite a creation time already taken")
 
     # ------------------------------------------------------------------- R3
-    ctx.rule("C02.R3", "identity is a function of the process alone: nothing that "
-             "_get_ident() evaluates (transitively, Linux) reads a module global "
-             "that is re-assigned after import, nor a wall-clock source (boot time, "
-             "time.time)", floor=1)
+    ctx.rule("C02.R3", "identity is a function of the process alone: the value "
+             "_get_ident() returns (Linux) has no data dependence on a module global "
+             "that is re-assigned after import, on a system-wide file (boot time) or "
+             "on a wall-clock call", floor=1)
     gi = repo.func("psutil", "Process._get_ident")
-    R = Reads(repo, A, "linux")
-    globs, funcs, exts = R.reads(gi)
+    from ..core.absint import Interp, pretty
+    from ..core.forms import canon
+    I = Interp(repo, A)
+    ident = canon(I.call_function(gi, []))
     unstable = written_globals(repo)
-    ctx.stat("ident_transitive_functions", sorted(funcs))
-    ctx.stat("ident_globals_read", sorted(f"{m}.{n}" for m, n in globs))
-    ctx.require(any(f.endswith("Process.create_time") for f in funcs)
-                or any("_parse_stat_file" in f for f in funcs),
-                "_get_ident no longer derives the identity from the process start time")
+    used_globs, used_files, used_clock = set(), set(), set()
+
+    def walk(t):
+        if isinstance(t, tuple) and t:
+            if t[0] == "glob":
+                used_globs.add(tuple(t[1].split(".", 1)))
+            elif t[0] in ("file", "line", "lines", "fobj", "rec") and len(t) > 1:
+                used_files.add(pretty(t[1]))
+            elif t[0] == "sample" and str(t[1]).startswith("time."):
+                used_clock.add(t[1])
+            for x in t:
+                if isinstance(x, tuple):
+                    walk(x)
+    walk(ident)
+    ctx.stat("ident_value", pretty(ident)[:300])
+    ctx.stat("ident_globals_read", sorted(f"{m}.{n}" for m, n in used_globs))
+    ctx.stat("ident_files_read", sorted(used_files))
+    ctx.require(any("{pid}/stat" in f for f in used_files),
+                f"_get_ident no longer derives the identity from <pid>/stat: "
+                f"{pretty(ident)[:160]}")
     n_bad = 0
-    for g in sorted(globs):
+    for g in sorted(used_globs):
         if g in unstable:
             n_bad += 1
             writers = sorted({w.fq for w in unstable[g]})
             ctx.fail("C02.R3", f"unstable-global:{g[0]}.{g[1]}", gi.file, gi.node.lineno,
-                     gi.qual, f"the identity reads global {g[0]}.{g[1]}, which "
+                     gi.qual, f"the identity value depends on global {g[0]}.{g[1]}, which "
                      f"{writers} re-assign(s) after import: the identity of a live "
                      f"process depends on which psutil calls ran in between")
-    for f in sorted(funcs & WALL_CLOCK_FUNCS):
-        n_bad += 1
-        ctx.fail("C02.R3", f"wall-clock:{f}", gi.file, gi.node.lineno, gi.qual,
-                 f"the identity evaluates {f}(), whose value follows the wall clock "
-                 f"(btime): after a clock step a fresh Process(pid) of the same live "
-                 f"process gets a different identity, so is_running() turns False "
-                 f"and == / hash() disagree")
-    for e in sorted(exts & WALL_CLOCK_EXT):
+    for f in sorted(used_files):
+        if "{pid}" not in f:
+            n_bad += 1
+            ctx.fail("C02.R3", f"wall-clock:{f}", gi.file, gi.node.lineno, gi.qual,
+                     f"the identity value depends on the system-wide file {f} (boot time "
+                     f"/ wall clock): after a clock step a fresh Process(pid) of the same "
+                     f"live process gets a different identity, so is_running() turns "
+                     f"False and == / hash() disagree")
+    for e in sorted(used_clock):
         n_bad += 1
         ctx.fail("C02.R3", f"wall-clock:{e}", gi.file, gi.node.lineno, gi.qual,
-                 f"the identity evaluates {e}()")
+                 f"the identity value depends on {e}()")
     if n_bad == 0:
-        ctx.ok("C02.R3", "ident-read-set",
-               sample={"functions": sorted(funcs)[:12],
-                       "globals": sorted(f"{m}.{n}" for m, n in globs)})
+        ctx.ok("C02.R3", "ident-dependences",
+               sample={"identity": pretty(ident)[:200],
+                       "globals": sorted(f"{m}.{n}" for m, n in used_globs),
+                       "files": sorted(used_files)})
 
     # ------------------------------------------------------------------- R4
     ctx.rule("C02.R4", "is_running(): early False once gone/recycled; a recycled "
@@ -200,6 +219,47 @@ def run(ctx):
     else:
         ctx.fail("C02.R4", "sticky-false", ir.file, ir.node.lineno, ir.qual,
                  "is_running() can answer True again after it answered False")
+    # the "gone" verdict is sticky (is_running() answers False for ever), so it may
+    # only be pronounced on evidence: in a handler of NoSuchProcess /
+    # ProcessLookupError raised by a query on that very object
+    from ..core.astutil import handler_catches
+    for fi in repo.all_funcs("psutil"):
+        for st in ast.walk(fi.node):
+            if not isinstance(st, ast.Assign):
+                continue
+            for t in st.targets:
+                if isinstance(t, ast.Attribute) and t.attr == "_gone" and not (
+                        isinstance(st.value, ast.Constant) and st.value.value is False):
+                    inh = False
+                    for tr in ast.walk(fi.node):
+                        if isinstance(tr, ast.Try):
+                            for h in tr.handlers:
+                                if any(s is st for b in h.body for s in ast.walk(b)) and \
+                                        (handler_catches(h, ["NoSuchProcess"]) or
+                                         handler_catches(h, ["ProcessLookupError"])) and \
+                                        not handler_catches(h, ["AccessDenied"]):
+                                    inh = True
+                    key = f"gone-on-evidence:{fi.qual}:{norm_stmt(st)}"
+                    # a wait() on the object's own process that returned is
+                    # evidence as well (the process has terminated)
+                    if not inh and dotted(t.value) == "self":
+                        cfgw = A.cfg(fi)
+                        waits = [n for c in calls_in(fi.node)
+                                 if isinstance(c.func, ast.Attribute) and c.func.attr == "wait"
+                                 and dotted(c.func.value) == "self._proc"
+                                 for n in cfgw.owners(c)]
+                        if waits and all(any(cfgw.dominates(w, n) for w in waits)
+                                         for n in cfgw.nodes_of(st)):
+                            inh = True
+                    if inh and dotted(t.value) == "self":
+                        ctx.ok("C02.R4", key, sample=f"{fi.qual}: {norm_stmt(st)} in "
+                               f"except NoSuchProcess/ProcessLookupError")
+                    else:
+                        ctx.fail("C02.R4", key, fi.file, st.lineno, fi.qual,
+                                 f"`{norm_stmt(st)}` declares a process gone without "
+                                 f"having seen NoSuchProcess/ESRCH for that object: "
+                                 f"is_running() would answer False for ever, even if the "
+                                 f"process is alive")
     ctx.assume("equality 'exactly when' holds up to the kernel's start-time "
                "resolution (0.01 s); real PID recycling is not exercised")
     return ("Attribute single-writer checks, AST shape of __eq__/__hash__/__ne__, "
